@@ -167,12 +167,14 @@ def api_eg(d, args):
     import fairlearn.reductions as red
 
     kind = d["kind"]
-    eg = red.ExponentiatedGradient(ExactLearner("cells"), getattr(red, kind)(difference_bound=0.05), eps=0.1, max_iter=6, nu=1e-6)
+    eg = red.ExponentiatedGradient(ExactLearner("cells"), getattr(red, kind)(difference_bound=0.05), eps=d["eg_eps"], max_iter=d["eg_max_iter"], nu=d["eg_nu"],
+                                   run_linprog_step=d["eg_lp"])
     kw = {"sensitive_features": args["g"]}
     if args.get("c") is not None:
         kw["control_features"] = args["c"]
     eg.fit(args["X"], args["y"], **kw)
     return {"weights_": canon(eg.weights_), "pmf": canon(np.asarray(eg._pmf_predict(d["X"]))), "best_gap_": canon(eg.best_gap_),
+            "last_iter_": canon(eg.last_iter_), "best_iter_": canon(eg.best_iter_), "n_oracle_calls_": canon(eg.n_oracle_calls_),
             "lambda_vecs_": {(i, j): float(v) for j, col in enumerate(eg.lambda_vecs_.columns)
                              for i, v in enumerate(eg.lambda_vecs_[col].reindex(sorted(eg.lambda_vecs_.index, key=repr)))}}
 
@@ -242,7 +244,10 @@ def make_data(rng, api):
          "c": ([["u", "v"][i] for i in rng.integers(0, 2, size=n)] if (api in ("metricframe", "moments", "eg", "grid") and rng.random() < 0.5) else None),
          "X": np.column_stack([rng.integers(0, 4, size=n).astype(float), rng.normal(size=n).round(3)]), "h": rng.random(n).round(3),
          "kind": gen.pick(rng, RM.PARITY), "constraints": [TL.CONSTRAINTS[i] for i in rng.permutation(len(TL.CONSTRAINTS))[:3]] + ["equalized_odds"],
-         "grid_size": int(gen.pick(rng, [5, 10, 100])), "flip": bool(rng.random() < 0.5)}
+         "grid_size": int(gen.pick(rng, [5, 10, 100])), "flip": bool(rng.random() < 0.5),
+         # EG: the default nu=None (derived from the data) and runs without the LP step, where the stopping iteration is sensitive
+         "eg_nu": gen.pick(rng, [1e-6, None, None]), "eg_lp": bool(rng.random() < 0.5), "eg_eps": float(gen.pick(rng, [0.1, 0.05])),
+         "eg_max_iter": int(gen.pick(rng, [6, 12, 25]))}
     if api == "threshold":
         d["X"][:, 0] = np.round(d["X"][:, 0] + np.asarray(y) * rng.random(n), 2)
     return d
